@@ -335,6 +335,10 @@ RULES = [
 ]
 
 
+from . import shared
+RULES = RULES + shared.bundle('C09', ['carry', 'gate', 'restart', 'values', 'stride', 'norm'], ['kernelpy', 'kernel', 'details'])
+
+
 def run(tier="quick", replay=None):
     return run_check(
         "C09", RULES, tier=tier, replay=replay,
